@@ -325,7 +325,13 @@ func indexValidReferrer(repo Repo, index types.Index, locked bool) (bool, digest
 	var subject digest.Digest
 	valid := true
 	responses := map[digest.Digest][]types.Descriptor{}
+	listed := map[digest.Digest]bool{}
 	for _, desc := range index.Manifests {
+		// a referrer listed twice is regenerated into a response that lists it once
+		if listed[desc.Digest] {
+			valid = false
+		}
+		listed[desc.Digest] = true
 		rdr, err := repo.blobGet(desc.Digest, locked)
 		if err != nil {
 			// errors result in entry being dropped from response list
